@@ -2,7 +2,7 @@
 intersector models in every batching; Compute.numSwaps on tensors built from coordinate lists."""
 import sys
 
-sys.path.insert(0, "/repo")
+sys.path.insert(0, __import__("os").environ.get("VERIF_REPO", "/repo"))
 from fibertree import Fiber, Tensor  # noqa: E402
 from fibertree.core.metrics import Metrics  # noqa: E402
 from fibertree.model.intersect import TwoFingerIntersector, SkipAheadIntersector, LeaderFollowerIntersector  # noqa: E402
